@@ -81,8 +81,9 @@ fn elem_expref(src: &mut Src, arr: &J, want_key: bool) -> (String, crate::refast
             ("&abs(n)", R::Call("abs".into(), vec![R::field("n")])),
             ("&id", R::field("id")),
         ],
-        Some(J::Num(_)) => vec![("&@", R::Current), ("&abs(@)", R::Call("abs".into(), vec![R::Current])), ("&to_string(@)", R::Call("to_string".into(), vec![R::Current]))],
-        Some(J::Str(_)) => vec![("&@", R::Current), ("&length(@)", R::Call("length".into(), vec![R::Current])), ("&reverse(@)", R::Call("reverse".into(), vec![R::Current]))],
+        Some(J::Num(_)) => vec![("&@", R::Current), ("&abs(@)", R::Call("abs".into(), vec![R::Current])), ("&to_string(@)", R::Call("to_string".into(), vec![R::Current])), ("&abs(@)", R::Call("abs".into(), vec![R::Current])), ("&type(@)", R::Call("type".into(), vec![R::Current])), ("&floor(@)", R::Call("floor".into(), vec![R::Current]))],
+        Some(J::Str(_)) => vec![("&@", R::Current), ("&length(@)", R::Call("length".into(), vec![R::Current])), ("&reverse(@)", R::Call("reverse".into(), vec![R::Current])), ("&length(@)", R::Call("length".into(), vec![R::Current])), ("&type(@)", R::Call("type".into(), vec![R::Current]))],
+        Some(J::Arr(_)) => vec![("&length(@)", R::Call("length".into(), vec![R::Current])), ("&type(@)", R::Call("type".into(), vec![R::Current])), ("&length(@)", R::Call("length".into(), vec![R::Current]))],
         _ => vec![("&@", R::Current), ("&type(@)", R::Call("type".into(), vec![R::Current]))],
     };
     // sometimes an arbitrary core expression as the reference: constants, multi-selects,
@@ -107,12 +108,25 @@ fn elem_expref(src: &mut Src, arr: &J, want_key: bool) -> (String, crate::refast
 }
 
 fn by_array(src: &mut Src) -> J {
+    by_array_of(src, true)
+}
+
+fn by_array_of(src: &mut Src, other_elements: bool) -> J {
     // objects with a duplicate-rich key k, unique id, numeric n, string s
     let n = match src.weighted(&[1, 6, 4]) {
         0 => 0,
         1 => src.below(8),
         _ => 21 + src.below(20),
     };
+    // now and then elements that are not objects, with keys that tie (|x|, the length, the
+    // type): equal keys keep the input order whatever the elements are
+    if other_elements && src.chance(50) {
+        return match src.below(3) {
+            0 => J::Arr((0..n).map(|_| if src.flip() { J::int(src.range(-3, 3)) } else { J::f(src.range(-6, 6) as f64 / 2.0) }).collect()),
+            1 => J::Arr((0..n).map(|_| J::Str(src.pick(&["b", "a", "é", "ab", "ba", "", "B", "aa", "zz", "z"]).to_string())).collect()),
+            _ => J::Arr((0..n).map(|_| J::Arr((0..src.below(3)).map(|_| J::int(src.range(0, 3))).collect())).collect()),
+        };
+    }
     let k_num = src.flip();
     J::Arr(
         (0..n)
@@ -537,7 +551,7 @@ fn counting(src: &mut Src, st: &mut Stats, _env: &Env) -> CaseResult {
             Ok(args[0].clone())
         }),
     );
-    let arr = by_array(src);
+    let arr = by_array_of(src, false);
     let n = arr.as_arr().map(|a| a.len()).unwrap_or(0);
     let key = *src.pick(&["k", "n", "id", "s"]);
     let (f, expr) = match src.below(4) {
